@@ -390,6 +390,13 @@ def tagmode_part(run, model, tm, rng, tier, have_model_t=True):
     rcm, mo, me = run_lines(model, ml, timeout=1200)
     if rcm != 0 or len(mo) != len(ml):
         raise RuntimeError("model driver failed (chainfeedm): %s %s" % (rcm, me))
+    # a C that differs from the machine: does it behave like the restart test keyed on tagno (ResumeT.KTagno, refuted for tag_mode +1)?
+    diff = [i for i in range(len(cl)) if co[i] != mo[i] and co[i] != "CRASH"][:60]
+    tagno_like = {}
+    if diff:
+        rck, ko, ke = run_lines(model, ["chainfeedm 1 " + ml[i].split(" ", 2)[2] for i in diff], timeout=600)
+        if rck == 0 and len(ko) == len(diff):
+            tagno_like = {ml[i]: (ko[j] == co[i]) for j, i in enumerate(diff)}
     oneshot = {}
     for c_, m_, cr, mr in zip(cl, ml, co, mo):
         run.case(m_)
@@ -400,7 +407,9 @@ def tagmode_part(run, model, tm, rng, tier, have_model_t=True):
             oneshot[key] = cr
         if cr != mr:
             run.violation("correspondence:ResumeT.chainm_step", {"what": "ber_check_tags (tag_mode %s, last_tag_form %s) fed in chunks and the extracted machine disagree: C %s, model %s"
-                                                                 % (f[2], f[3], cr[:200], mr[:200]), "command_line": m_[:3000], "c_command": c_[:3000]},
+                                                                 % (f[2], f[3], cr[:200], mr[:200]) +
+                                                                 ("; the C answers what the machine with the restart test keyed on tagno answers (ResumeT.KTagno, C05_chainm_tagno_refuted)" if tagno_like.get(m_) else ""),
+                                                                 "command_line": m_[:3000], "c_command": c_[:3000]},
                           no_input=(cr == oneshot.get(key)))
         if key in oneshot and cr != oneshot[key] and cr != "CRASH":
             # the oracle on the C alone: every schedule delivers the whole input, so the run must end like the one-shot run:
